@@ -17,10 +17,17 @@ RECURSIVE YA(_), YB(_)
 YA(t) == IF t = 1 THEN 3 ELSE YB(t - 1) + 1
 YB(t) == IF t = 1 THEN 1 ELSE YA(t - 1) - YB(t - 1)
 
+\* thorough tier: Deep <- DeepOn in the cfg (longer samples, more missing patterns, a second-order bivariate VAR, no-intercept variants)
+Deep == FALSE
+DeepOn == TRUE
 MissSets(T, w) == {{}, {<<3, 1>>}, {<<T, w>>}, {<<2, w>>}, {<<1, 1>>}, {<<4, 1>>, <<5, w>>}}
+                  \cup (IF Deep THEN {{<<2, 1>>, <<6, 1>>}, {<<3, w>>, <<4, w>>}, {<<5, 1>>}, {<<1, w>>, <<T, 1>>}, {<<T - 1, 1>>}} ELSE {})
 Scen == UNION {{[K |-> kpt[1][1], nx |-> kpt[2], p |-> kpt[1][2], icpt |-> TRUE, exact |-> FALSE, g |-> g, data |-> Rows(kpt[3], kpt[1][1] + kpt[2], ms, g)] :
                    ms \in MissSets(kpt[3], kpt[1][1] + kpt[2]), g \in {0, 1}}
-               : kpt \in {<<1, 1>>, <<1, 2>>, <<2, 1>>} \X {0, 1} \X {7, 8}}
+               : kpt \in ({<<1, 1>>, <<1, 2>>, <<2, 1>>} \X {0, 1} \X {7, 8})
+                          \cup (IF Deep THEN ({<<1, 1>>, <<1, 2>>, <<2, 1>>} \X {0, 1} \X {9, 10}) \cup ({<<2, 2>>} \X {0} \X {9, 10}) ELSE {})}
+        \cup (IF Deep THEN UNION {{[K |-> kT[1], nx |-> 0, p |-> 1, icpt |-> FALSE, exact |-> FALSE, g |-> g, data |-> Rows(kT[2], kT[1], ms, g)] :
+                                      g \in {0, 1}, ms \in {{}, {<<3, 1>>}, {<<kT[2], kT[1]>>}}} : kT \in {1, 2} \X {7, 9}} ELSE {})
         \cup {[K |-> 1, nx |-> 1, p |-> 1, icpt |-> TRUE, exact |-> TRUE, g |-> 0, data |-> [t \in 1..6 |-> <<Y1(t), Gen(t, 2)>>]],
               [K |-> 2, nx |-> 0, p |-> 1, icpt |-> TRUE, exact |-> TRUE, g |-> 0, data |-> [t \in 1..6 |-> <<YA(t), YB(t)>>]],
               [K |-> 1, nx |-> 0, p |-> 1, icpt |-> FALSE, exact |-> FALSE, g |-> 0, data |-> Rows(6, 1, {}, 0)]}
